@@ -29,6 +29,83 @@ def read(repo, *p):
     return strip_comments(open(os.path.join(repo, *p)).read())
 
 
+# ---------------------------------------------------------------------------------------------
+# Key shapes: how each tool forms its key, extracted from that tool's own source as DATA
+#   kexpr ::= KConst n | KPrev | KHash fn data_role len_role seed_kexpr
+# (which string is hashed, WHICH string's size() is passed as the length, which seed / nesting).
+_CALL = re.compile(r"\s*util\s*::\s*(MurmurHash64A|MurmurHashNative)\s*\(")
+
+
+def _split_args(text):
+    """top-level comma split of the argument text of one call"""
+    out, depth, cur = [], 0, ""
+    for ch in text:
+        if ch in "([":
+            depth += 1
+        elif ch in ")]":
+            depth -= 1
+        if ch == "," and depth == 0:
+            out.append(cur.strip())
+            cur = ""
+        else:
+            cur += ch
+    out.append(cur.strip())
+    return out
+
+
+def _matching(text, i):
+    depth = 0
+    for j in range(i, len(text)):
+        if text[j] == "(":
+            depth += 1
+        elif text[j] == ")":
+            depth -= 1
+            if depth == 0:
+                return j
+    raise ValueError("unbalanced parentheses in a hash call")
+
+
+def parse_kexpr(expr, roles, scope, default_seed, prev_names=(), what=""):
+    """expr: C++ text of a key expression; roles: C++ identifier -> role constructor;
+    scope: the surrounding function text (to resolve a variable that holds an inner hash);
+    prev_names: identifiers that denote the running value of a fold (KPrev)."""
+    expr = expr.strip()
+    m = _CALL.match(expr)
+    if m:
+        close = _matching(expr, m.end() - 1)
+        if expr[close + 1:].strip() != "":
+            raise ValueError("unexpected text after the hash call in %s: %r" % (what, expr[close + 1:][:40]))
+        args = _split_args(expr[m.end():close])
+        if len(args) not in (2, 3):
+            raise ValueError("hash call with %d arguments in %s" % (len(args), what))
+        d = re.fullmatch(r"(\w+)\s*\.\s*data\s*\(\s*\)", args[0])
+        l = re.fullmatch(r"(\w+)\s*\.\s*size\s*\(\s*\)", args[1])
+        if not d or not l or d.group(1) not in roles or l.group(1) not in roles:
+            raise ValueError("cannot tell which string / length is hashed in %s: %r, %r" % (what, args[0], args[1]))
+        seed = parse_kexpr(args[2], roles, scope, default_seed, prev_names, what) if len(args) == 3 else "(KConst %d)" % default_seed
+        return "(KHash %s %s %s %s)" % ("F64A" if m.group(1) == "MurmurHash64A" else "FNative", roles[d.group(1)], roles[l.group(1)], seed)
+    if re.fullmatch(NUM, expr):
+        return "(KConst %d)" % cint(expr)
+    if re.fullmatch(r"\w+", expr):
+        if expr in prev_names:
+            return "KPrev"
+        # a variable holding an inner hash: its (single) initialisation / assignment in the scope
+        defs = re.findall(r"(?:uint64_t|size_t|unsigned\s+long)?\s*\b" + re.escape(expr) + r"\s*=\s*([^;]*Murmur[^;]*);", scope)
+        defs = sorted(set(" ".join(x.split()) for x in defs))
+        if len(defs) == 1:
+            return parse_kexpr(defs[0], roles, scope, default_seed, prev_names, what)
+        raise ValueError("cannot resolve the seed variable %r in %s (%d definitions)" % (expr, what, len(defs)))
+    raise ValueError("unsupported key expression in %s: %r" % (what, expr[:60]))
+
+
+def key_statement(src, lhs_rx, what, where):
+    """the right-hand side of `<lhs> = <expr>;` for the first statement whose rhs contains a Murmur call"""
+    m = re.search(lhs_rx + r"\s*=\s*([^;]*Murmur[^;]*);", src, flags=re.S)
+    if not m:
+        raise ValueError("key statement for %s not found in %s" % (what, where))
+    return m.group(1)
+
+
 def strip_arm(src):
     """keep the #else branch of `#if defined(__arm) || defined(__arm__)` blocks (x86-64 build)"""
     out = []
@@ -159,34 +236,58 @@ def strict(repo):
     f = read(repo, "preprocess", "fields.hh")
     m = need(ws(r"explicit HashCallback \( uint64_t seed = " + NUM + r" \) : hash_ \( seed \)"), f, "HashCallback default seed", "preprocess/fields.hh")
     shard_seed = cint(m.group(1))
-    need(ws(r"void operator\(\) \( util::StringPiece key \) \{ hash_ = util::MurmurHashNative \( key\.data \( \) , key\.size \( \) , hash_ \) ; \}"),
-         f, "HashCallback::operator() folds with the previous value as seed", "preprocess/fields.hh")
     sh = read(repo, "preprocess", "shard_main.cc")
-    need(ws(r"preprocess::HashCallback cb ; preprocess::RangeFields \( line , options\.key_fields , options\.delim , cb \) ; "
-            r"out \[ cb\.Hash \( \) % shard_count \] << line << '\\n' ;"), sh, "shard: default-seeded HashCallback, Hash() % shard_count", "preprocess/shard_main.cc")
+    need(ws(r"out \[ cb\.Hash \( \) % shard_count \] << line << '\\n' ;"), sh, "shard: out[cb.Hash() % shard_count]", "preprocess/shard_main.cc")
+    need(ws(r"preprocess::RangeFields \( line , options\.key_fields , options\.delim , cb \) ;"), sh, "shard: RangeFields into cb", "preprocess/shard_main.cc")
     need(ws(r"uint64_t shard_count = options\.outputs\.size \( \) ;"), sh, "shard_count", "preprocess/shard_main.cc")
     dd = read(repo, "preprocess", "dedupe_main.cc")
-    m1 = need(ws(r"return \( \*this \) \( util::MurmurHashNative \( line\.data \( \) , line\.size \( \) , " + NUM + r" \) \) ;"), dd, "dedupe whole-line seed", "preprocess/dedupe_main.cc")
-    m2 = need(ws(r"HashCallback hasher \( " + NUM + r" \) ; RangeFields \( line , key_fields_ , delim_ , hasher \) ;"), dd, "dedupe field seed", "preprocess/dedupe_main.cc")
-    dedupe_line_seed, dedupe_field_seed = cint(m1.group(1)), cint(m2.group(1))
+    need(ws(r"RangeFields \( line , key_fields_ , delim_ , hasher \) ;"), dd, "dedupe: RangeFields into hasher", "preprocess/dedupe_main.cc")
     ca = read(repo, "preprocess", "cache_main.cc")
-    m = need(ws(r"HashWithSeed \( \) \{ hash = " + NUM + r" ; \} void operator\(\) \( util::StringPiece sp \) \{ "
-                r"size_t result = util::MurmurHashNative \( sp\.data \( \) , sp\.size \( \) , hash \) ; hash = result ; \}"), ca, "cache HashWithSeed", "preprocess/cache_main.cc")
+    m = need(ws(r"HashWithSeed \( \) \{ hash = " + NUM + r" ; \}"), ca, "cache HashWithSeed initial value", "preprocess/cache_main.cc")
     cache_seed = cint(m.group(1))
     sl = read(repo, "preprocess", "subtract_lines_main.cc")
-    ss = re.findall(ws(r"util::MurmurHashNative \( line\.data \( \) , line\.size \( \) , " + NUM + r" \)"), sl)
-    if len(ss) != 2:
-        raise ValueError("expected two MurmurHashNative(line, seed) call sites in subtract_lines_main.cc, found %d" % len(ss))
-    sub_insert_seed, sub_lookup_seed = cint(ss[0]), cint(ss[1])
     cc = read(repo, "preprocess", "commoncrawl_dedupe_main.cc")
-    m = need(ws(r"entry\.key = util::MurmurHashNative \( l\.data \( \) , l\.size \( \) , " + NUM + r" \) ;"), cc, "commoncrawl_dedupe seed", "preprocess/commoncrawl_dedupe_main.cc")
-    ccd_seed = cint(m.group(1))
     tr = read(repo, "preprocess", "train_case_main.cc")
-    need(ws(r"uint64_t key = util::MurmurHash64A \( lowered_\.data \( \) , lowered_\.size \( \) , util::MurmurHash64A \( source\.data \( \) , source\.size \( \) \) \) ;"),
-         tr, "train_case key = 64A(lowered, 64A(source))", "preprocess/train_case_main.cc")
+    tr_fn = tr[tr.index("void Add"):tr.index("void Dump")]
+    train_shape = parse_kexpr(key_statement(tr_fn, r"uint64_t\s+key", "train_case key", "train_case_main.cc"),
+                              {"lowered_": "RLowered", "source": "RSource", "target": "RTarget"}, tr_fn, default_seed_a, what="train_case_main.cc Recorder::Add")
     ap = read(repo, "preprocess", "apply_case_main.cc")
-    need(ws(r"uint64_t key = util::MurmurHash64A \( lowered\.data \( \) , lowered\.size \( \) , util::MurmurHash64A \( source\.data \( \) , source\.size \( \) \) \) ;"),
-         ap, "apply_case key = 64A(lowered, 64A(source))", "preprocess/apply_case_main.cc")
+    ap_fn = ap[ap.index("int main"):]
+    apply_shape = parse_kexpr(key_statement(ap_fn, r"uint64_t\s+key", "apply_case key", "apply_case_main.cc"),
+                              {"lowered": "RLowered", "source": "RSource"}, ap_fn, default_seed_a, what="apply_case_main.cc main")
+    # the fold step of HashCallback (fields.hh) and of cache's HashWithSeed, each from its own source
+    hc = f[f.index("class HashCallback"):]
+    hc_step = parse_kexpr(key_statement(hc, r"hash_", "HashCallback::operator()", "fields.hh"),
+                          {"key": "RPiece"}, hc, default_seed_n, prev_names=("hash_",), what="fields.hh HashCallback::operator()")
+    hw = ca[ca.index("struct HashWithSeed"):ca.index("void Input")]
+    cache_step = parse_kexpr(key_statement(hw, r"size_t\s+result", "HashWithSeed::operator()", "cache_main.cc"),
+                             {"sp": "RPiece"}, hw, default_seed_n, prev_names=("hash",), what="cache_main.cc HashWithSeed::operator()")
+    need(ws(r"size_t result = [^;]* ; hash = result ; \}"), hw, "HashWithSeed stores the result as the next seed", "preprocess/cache_main.cc")
+    dd_fn = dd[dd.index("class Dedupe"):dd.index("class FieldDedupe")]
+    m = re.search(r"\(\s*\*this\s*\)\s*\(\s*(util::Murmur[^;]*)\)\s*;", dd_fn, flags=re.S)
+    if not m:
+        raise ValueError("dedupe whole-line key expression not found in dedupe_main.cc")
+    dedupe_line_shape = parse_kexpr(m.group(1), {"line": "RLine"}, dd_fn, default_seed_n, what="dedupe_main.cc Dedupe::operator()")
+    sub_shapes = [parse_kexpr(x, {"line": "RLine"}, sl, default_seed_n, what="subtract_lines_main.cc")
+                  for x in re.findall(r"=\s*(util::MurmurHashNative[^;]*);", sl)]
+    if len(sub_shapes) != 2:
+        raise ValueError("expected two key statements in subtract_lines_main.cc, found %d" % len(sub_shapes))
+    ccd_shape = parse_kexpr(key_statement(cc, r"entry\.key", "commoncrawl_dedupe key", "commoncrawl_dedupe_main.cc"),
+                            {"l": "RLine"}, cc, default_seed_n, what="commoncrawl_dedupe_main.cc IsNewLine")
+    # shard: which seed the callback is constructed with (none = the default of fields.hh)
+    msh = need(ws(r"preprocess::HashCallback cb (?:\( " + NUM + r" \))? ;"), sh, "shard's HashCallback construction", "preprocess/shard_main.cc")
+    shard_ctor_seed = "None" if msh.group(1) is None else "(Some %d)" % cint(msh.group(1))
+    mdf = need(ws(r"HashCallback hasher (?:\( " + NUM + r" \))? ;"), dd, "dedupe's HashCallback construction", "preprocess/dedupe_main.cc")
+    dedupe_ctor_seed = "None" if mdf.group(1) is None else "(Some %d)" % cint(mdf.group(1))
+    def const_seed(shape, what):
+        mm_ = re.search(r"\(KConst (\d+)\)\)$", shape)
+        if not mm_:
+            raise ValueError("the seed of %s is not a constant" % what)
+        return int(mm_.group(1))
+    dedupe_line_seed = const_seed(dedupe_line_shape, "dedupe's whole-line key")
+    dedupe_field_seed = shard_seed if mdf.group(1) is None else cint(mdf.group(1))
+    sub_insert_seed, sub_lookup_seed = const_seed(sub_shapes[0], "subtract_lines insert"), const_seed(sub_shapes[1], "subtract_lines lookup")
+    ccd_seed = const_seed(ccd_shape, "commoncrawl_dedupe")
     mh = read(repo, "preprocess", "mmhsum_main.cc")
     m = need(ws(r"constexpr size_t bufferSize = " + NUM + r" \* " + NUM + r" ;"), mh, "mmhsum buffer size", "preprocess/mmhsum_main.cc")
     mmh_buf = cint(m.group(1)) * cint(m.group(2))
@@ -200,6 +301,21 @@ def strict(repo):
 
     L = ["(* GENERATED by tools/gen/g_murmur.py from util/murmur_hash.cc/.hh and the hashing call sites -- do not edit *)",
          "From Coq Require Import List ZArith.", "Import ListNotations.", "Local Open Scope Z_scope.", ""]
+    L.append("(* how a key is formed: which hash function, which string's data(), WHICH string's size() as the length, which seed *)")
+    L.append("Inductive kfn : Type := F64A | FNative.")
+    L.append("Inductive krole : Type := RLowered | RSource | RTarget | RPiece | RLine.")
+    L.append("Inductive kexpr : Type := KConst (z : Z) | KPrev | KHash (f : kfn) (data len : krole) (seed : kexpr).")
+    L.append("(* each extracted from that tool's own source text *)")
+    L.append("Definition train_case_key_shape : kexpr := %s." % train_shape)
+    L.append("Definition apply_case_key_shape : kexpr := %s." % apply_shape)
+    L.append("Definition hashcallback_step_shape : kexpr := %s.   (* fields.hh HashCallback::operator() *)" % hc_step)
+    L.append("Definition cache_step_shape : kexpr := %s.   (* cache_main.cc HashWithSeed::operator() *)" % cache_step)
+    L.append("Definition dedupe_line_key_shape : kexpr := %s." % dedupe_line_shape)
+    L.append("Definition subtract_insert_key_shape : kexpr := %s." % sub_shapes[0])
+    L.append("Definition subtract_lookup_key_shape : kexpr := %s." % sub_shapes[1])
+    L.append("Definition commoncrawl_dedupe_key_shape : kexpr := %s." % ccd_shape)
+    L.append("Definition shard_callback_ctor_seed : option Z := %s.   (* None = HashCallback's default *)" % shard_ctor_seed)
+    L.append("Definition dedupe_callback_ctor_seed : option Z := %s." % dedupe_ctor_seed)
     L.append("Definition murmur_m : Z := %d.   (* 0x%x *)" % (mm, mm))
     L.append("Definition murmur_r : Z := %d." % rr)
     L.append("Definition murmur_block : Z := %d.   (* len / %d blocks of uint64_t *)" % (block, block))
